@@ -58,6 +58,80 @@ theorem C03_table_delegates :
     Gen.delegates .make_variable_static = [.remove_variable, .add_derived, .add_parameter] := by
   decide
 
+/-- Statement order of every mutator, as read from the source: which id operation, which own container (and
+    how: item assignment / `del` / `pop`), which component writes, which rejecting statements (with the classes
+    they raise), which `_check_*` helpers, which delegated mutators and which subscript loads, in order.  The
+    model's `step` is written after exactly these scripts; any reordering, added or dropped statement in a
+    mutator body makes this obligation fail on the next run. -/
+theorem C03_table_scripts :
+    Gen.Mut.all.map Gen.script =
+    [ [.ins "parameter", .cwrite "_parameters" "set"],
+      [.check "_check_new_ids", .call .add_parameter, .call .add_parameter],
+      [.cwrite "_parameters" "pop", .rem],
+      [.check "_check_known_names", .call .remove_parameter],
+      [.guard "KeyError", .load "_parameters", .write, .write, .write],
+      [.check "_check_known_names", .call .update_parameter, .call .update_parameter],
+      [.call .update_parameter],
+      [.call .update_parameters],
+      [.load "_parameters", .guard "KeyError", .call .remove_parameter, .call .add_variable, .write, .write,
+       .guard "KeyError"],
+      [.ins "variable", .cwrite "_variables" "set"],
+      [.check "_check_new_ids", .call .add_variable, .call .add_variable],
+      [.cwrite "_variables" "del", .rem, .write, .write],
+      [.check "_check_known_names", .call .remove_variable],
+      [.guard "KeyError", .load "_variables", .write, .write, .write],
+      [.check "_check_known_names", .call .update_variable, .call .update_variable],
+      [.load "_variables", .call .remove_variable, .call .add_derived, .call .add_parameter],
+      [.ins "derived", .cwrite "_derived" "set"],
+      [.load "_derived", .write, .write, .write],
+      [.cwrite "_derived" "pop", .rem],
+      [.ins "reaction", .cwrite "_reactions" "set"],
+      [.load "_reactions", .write, .write, .write, .write],
+      [.cwrite "_reactions" "pop", .rem],
+      [.ins "readout", .cwrite "_readouts" "set"],
+      [.cwrite "_readouts" "del", .rem],
+      [.check "_check_new_ids", .ins "surrogate", .write, .write, .write, .ins "surrogate",
+       .cwrite "_surrogates" "set"],
+      [.guard "KeyError", .load "_surrogates", .load "_surrogates", .check "_check_new_ids", .write, .write, .write,
+       .rem, .ins "surrogate", .cwrite "_surrogates" "set"],
+      [.cwrite "_surrogates" "pop", .rem, .rem],
+      [.ins "data", .cwrite "_data" "set"],
+      [.guard "KeyError", .cwrite "_data" "set"],
+      [.cwrite "_data" "pop", .rem] ] := by decide
+
+/-- "validate first": no mutator has a rejecting statement after its first write, except the final
+    `if not target: raise` of `make_parameter_dynamic` (which the model carries as `setStoich`'s failure and
+    `makeParameterDynamic_good` proves unreachable after the up-front check); and every method that the model
+    rejects through a dictionary lookup does subscript its own container before it writes. -/
+theorem C03_table_validate_first :
+    (∀ m, m ≠ Gen.Mut.make_parameter_dynamic → Gen.lateGuards m = 0) ∧
+    Gen.lateGuards .make_parameter_dynamic = 1 ∧
+    Gen.loadsBefore .update_derived = ["_derived"] ∧ Gen.loadsBefore .update_reaction = ["_reactions"] ∧
+    Gen.loadsBefore .make_variable_static = ["_variables"] ∧
+    Gen.loadsBefore .make_parameter_dynamic = ["_parameters"] ∧
+    (∀ m, ∀ x ∈ Gen.raisesBefore m, x = "KeyError") := by
+  refine ⟨?_, rfl, rfl, rfl, rfl, rfl, ?_⟩
+  · intro m hm; cases m <;> first | rfl | exact absurd rfl hm
+  · intro m; cases m <;> decide
+
+/-- every `add_*` writes the container of its own kind and registers the id under the matching `ctx`, every
+    `remove_*` / `update_*` touches the same container (so ids values and containers cannot drift apart) -/
+theorem C03_table_containers :
+    Gen.Mut.all.map (fun m => (Gen.ctx m, Gen.containers m)) =
+    [ (["parameter"], ["_parameters"]), ([], []), ([], ["_parameters"]), ([], []), ([], []), ([], []), ([], []),
+      ([], []), ([], []),
+      (["variable"], ["_variables"]), ([], []), ([], ["_variables"]), ([], []), ([], []), ([], []), ([], []),
+      (["derived"], ["_derived"]), ([], []), ([], ["_derived"]),
+      (["reaction"], ["_reactions"]), ([], []), ([], ["_reactions"]),
+      (["readout"], ["_readouts"]), ([], ["_readouts"]),
+      (["surrogate", "surrogate"], ["_surrogates"]), (["surrogate"], ["_surrogates"]), ([], ["_surrogates"]),
+      (["data"], ["_data"]), ([], ["_data"]), ([], ["_data"]) ] := by decide
+
+/-- the generated `__eq__` of the dataclass compares the ids and the seven containers and NOT the cache -/
+theorem C03_table_eq_fields :
+    Gen.eqFields = ["_ids", "_variables", "_parameters", "_derived", "_readouts", "_reactions", "_surrogates",
+      "_data"] := rfl
+
 /-! ## the cache is never stale -/
 
 /-- After ANY history of mutators and queries the cache is empty or is exactly what `_create_cache` builds
@@ -71,32 +145,75 @@ theorem C03_cache_valid (h : List HOp) : CacheOK (run init h) := by
     simp only [run, List.foldl_cons]
     apply ih
     cases o with
-    | edit op => exact step_cacheOK s op hs
+    | edit op given => exact stepS_cacheOK s op given hs
     | ask q => exact query_cacheOK s q hs
+    | fork => exact hs
 
 /-- Hence every query, after any history, answers exactly as a model freshly built from the current
     content (`freshAnswer` runs `createCache` on the content and answers from that). -/
-theorem C03_fresh_equiv (h : List HOp) (q : Query) :
-    (query (run init h) q).2 = freshAnswer (run init h).content q := by
+theorem C03_fresh_equiv (h : List HOp) (q : Query) (hq : q ≠ .eqFresh) :
+    (query (run init h) q).2 = freshAnswer (run init h).sigs (run init h).content q := by
   have hc := C03_cache_valid h
   generalize run init h = s at hc
-  unfold query ensureCache freshAnswer
-  rcases hc with hn | ⟨c, h1, h2⟩
-  · rw [hn]
-    simp only
-    cases hcc : createCache s.content with
-    | ok c => simp [bind, Except.bind]
-    | error e => simp [bind, Except.bind]
-  · rw [h2, h1]
-    simp [bind, Except.bind]
+  unfold query freshAnswer
+  split
+  · exact absurd rfl hq
+  · split
+    · unfold ensureCache
+      rcases hc with hn | ⟨c, h1, h2⟩
+      · rw [hn]
+        simp only
+        cases hcc : buildCache s.sigs s.content with
+        | ok c => simp [bind, Except.bind]
+        | error e => simp [bind, Except.bind]
+      · rw [h2, h1]
+        simp [bind, Except.bind]
+    · rfl
+
+/-- The entry points that do not go through `_create_cache` do not look at a cache at all (so the placeholder
+    the model hands them is never read): names of variables / parameters / reactions / readouts / surrogate
+    outputs and fluxes, unused parameters, raw stoichiometries, and `get_arg_names` without the two derived flags. -/
+theorem C03_cachefree_queries (c : Content) (k1 k2 : Cache) (q : Query) (hq : q.needsCache = false) :
+    answer c k1 q = answer c k2 q := by
+  cases q with
+  | names nq => cases nq <;> rfl
+  | rawStoich x => rfl
+  | eqFresh => rfl
+  | argNames fl =>
+    simp only [Query.needsCache, Bool.or_eq_false_iff] at hq
+    simp only [answer, argNames, argNamesOf, hq.1, hq.2]
+    rfl
+  | _ => simp [Query.needsCache] at hq
+
+/-- `model == other` for a newly built `other` with the same content: after ANY history the answer is `True`,
+    whether or not a query has filled the cache — the generated `__eq__` does not compare `_cache`
+    (fact read from the dataclass fields of the current source). -/
+theorem C03_eq_fresh (h : List HOp) : (query (run init h) .eqFresh).2 = .ok (.bool true) := by
+  have : ∀ s : State, eqFresh s = true := by
+    intro s
+    unfold eqFresh
+    rw [C03_table_eq_fields]
+    rfl
+  simp only [query, this]
+
+/-- A query edits nothing: content and ids are exactly as before (only the cache may have been filled). -/
+theorem C03_query_is_pure (h : List HOp) (q : Query) :
+    (query (run init h) q).1.content = (run init h).content ∧ (query (run init h) q).1.ids = (run init h).ids :=
+  query_same _ q
 
 /-- `freshAnswer` is the shared core's query (the function C01 is about), here for the right-hand side.
     (The shared core does not model the final `args.pop(data)` of `_get_args`; without data sets the two
     coincide.) -/
 theorem C03_fresh_is_core_rhs (c : Content) (hd : c.data = []) (vals : List Rat) (t : Rat) :
-    freshAnswer c (.rhs (some vals) t)
+    freshAnswer [] c (.rhs (some vals) t)
       = (Mxl.getRhsQ c (some (cycle vals 0 (omKeys c.vars))) t).map Ans.assoc := by
-  unfold freshAnswer Mxl.getRhsQ answer stateOf resolveVars rawArgs
+  have hn : (Query.rhs (some vals) t).needsCache = true := rfl
+  have ha : arityOK [] c = true := by
+    unfold arityOK
+    exact List.all_eq_true.mpr (fun na _ => rfl)
+  unfold freshAnswer buildCache
+  rw [if_pos hn, if_pos ha]
+  unfold Mxl.getRhsQ answer stateOf resolveVars rawArgs
   cases createCache c with
   | error e => rfl
   | ok cache =>
@@ -109,6 +226,48 @@ theorem C03_fresh_is_core_rhs (c : Content) (hd : c.data = []) (vals : List Rat)
         intro kv _
         rfl
       simp only [pure, Except.pure, this, List.append_nil]
+
+/-! ## the sanity checks of `_create_cache` (function arities) -/
+
+/-- what the translator read: the sanity-check loop walks initial assignments, derived quantities, reactions AND
+    readouts, raises `ArityMismatchError`, and runs before the dependency sort -/
+theorem C03_table_arity :
+    Gen.arityChecked = ["initial_assignments", "_derived", "_reactions", "_readouts"] ∧
+    Gen.arityError = "ArityMismatchError" ∧ Gen.arityBeforeSort = true := ⟨rfl, rfl, rfl⟩
+
+/-- `_check_function_arity` as generated from the source: a function whose positional parameters are exactly
+    the model arguments is accepted, so is any `*args` function; a plain function (no defaults, no keyword-only
+    parameters, no `*args`) is accepted ONLY in that case. -/
+theorem C03_check_function_arity (sig : Gen.Sig) (arity : Nat) :
+    (sig.nargs = arity → Gen.checkFunctionArity sig arity = true) ∧
+    (sig.varargs = true → Gen.checkFunctionArity sig arity = true) ∧
+    (sig.defaults = none → sig.varargs = false →
+      (Gen.checkFunctionArity sig arity = true ↔ sig.nargs = arity)) := by
+  refine ⟨fun h => ?_, fun h => ?_, fun hd hv => ?_⟩
+  · unfold Gen.checkFunctionArity; simp [h]
+  · unfold Gen.checkFunctionArity; simp [h]
+  · unfold Gen.checkFunctionArity; simp [hd, hv]
+
+/-- A mismatch anywhere among the checked functions makes EVERY cache-building entry point raise
+    `ArityMismatchError` — on the edited model exactly as on a freshly built one (`C03_fresh_equiv`) — whatever
+    else is wrong with the content (it wins over a missing dependency). -/
+theorem C03_arity_mismatch_raises (h : List HOp) (q : Query) (hq : q.needsCache = true)
+    (hbad : arityOK (run init h).sigs (run init h).content = false) :
+    (query (run init h) q).2 = .error (.other "ArityMismatchError") := by
+  have hne : q ≠ .eqFresh := by intro he; rw [he] at hq; cases hq
+  rw [C03_fresh_equiv h q hne]
+  unfold freshAnswer buildCache
+  rw [if_pos hq, hbad]
+  rfl
+
+/-- A raising call records no signature: content, ids AND the functions' signatures are those of before. -/
+theorem C03_rejected_records_nothing (s : State) (op : Op) (given) (e : Err)
+    (hr : (stepS s op given).2 = .error e) : (stepS s op given).1 = (step s op).1 := by
+  unfold stepS at hr ⊢
+  simp only at hr ⊢
+  split
+  · rename_i hok; rw [hok] at hr; cases hr
+  · rfl
 
 /-! ## one name space, kept exact by every edit -/
 
@@ -123,8 +282,9 @@ theorem C03_ids_exact (h : List HOp) : Exact (run init h) := by
     simp only [run, List.foldl_cons]
     apply ih
     cases o with
-    | edit op => exact step_exact s op hs
+    | edit op given => exact exact_of_same (stepS_same s op given) (step_exact s op hs)
     | ask q => exact exact_of_same (query_same s q) hs
+    | fork => exact hs
 
 /-- the same, as a permutation plus duplicate-freeness (all kinds of component share one name space) -/
 theorem C03_one_name_space (h : List HOp) :
@@ -259,5 +419,20 @@ example :
       (.add_parameters [("n1", .plain 1), ("k", .plain 2)])).2 = .error (.nameError "k") ∧
     omKeys (step (run init [.edit (.add_parameter "k" (.plain 3))])
       (.add_parameters [("n1", .plain 1), ("k", .plain 2)])).1.ids = ["k"] := ⟨rfl, by decide +kernel⟩
+
+/-- the arity path is live: a readout whose function takes two parameters for one argument makes the next
+    query raise; removing the readout repairs the model (this is the history of finding F-C03-9) -/
+def badReadout : List HOp :=
+  [ .edit (.add_variable "x" (.plain 1)),
+    .ask .init,
+    .edit (.add_readout "ro" { args := ["x"], fn := fun xs => xs.getD 0 0 }) [("ro", { nargs := 2 })] ]
+
+example : (match (query (run init badReadout) .init).2 with
+    | .error (.other e) => e == "ArityMismatchError" | _ => false) = true := by decide +kernel
+
+example : (match (query (run init (badReadout ++ [.edit (.remove_readout "ro")])) .init).2 with
+    | .ok (.assoc l) => l == [("x", (1 : Rat))] | _ => false) = true := by decide +kernel
+
+example : arityOK (run init badReadout).sigs (run init badReadout).content = false := by decide +kernel
 
 end Mxl.C03
